@@ -11,6 +11,7 @@ type vStubFS struct {
 	ents     []*vStubEnt
 	viol     string // first stub-contract violation observed by the stub itself
 	yield    bool   // vYield inside every call (concurrent harnesses)
+	fullWalk bool   // walks by name always find every element
 	noFail   bool   // calls never fail
 	attaches int
 	// scripted failures for the concurrent pair harness, keyed by entity id
@@ -125,7 +126,10 @@ func (e *vStubEnt) Walk(ctx context.Context, names ...string) ([]Qid, Dirent, er
 	if e.fs.fails("walk") {
 		return nil, dummy, errVMock
 	}
-	k := ndChoice("walk.found", len(names)+1)
+	k := len(names)
+	if !e.fs.fullWalk {
+		k = ndChoice("walk.found", len(names)+1)
+	}
 	qids := make([]Qid, k)
 	for i := range qids {
 		qids[i] = Qid{Path: uint64(100 + i)}
